@@ -4,7 +4,9 @@
 (* selected by `Const <- MCxxx` in the configs.                             *)
 EXTENDS FlowTable
 
-M(ip, dd, nl, nv) == [ip |-> ip, dd |-> dd, nl |-> nl, nv |-> nv, ex |-> 0]
+MS(ip, dd, sl, sv, nl, nv) == [ip |-> ip, dd |-> dd, sl |-> sl, sv |-> sv, nl |-> nl, nv |-> nv,
+                               ex |-> 0]
+M(ip, dd, nl, nv) == MS(ip, dd, 0, 0, nl, nv)
 ANY  == M(0, 0, 0, 0)
 P1   == M(1, 0, 0, 0)          \* in_port = 1
 P2   == M(2, 0, 0, 0)
@@ -20,17 +22,38 @@ H1   == 167837697              \* 10.1.0.1
 H2   == 167903233              \* 10.2.0.1
 H3   == 184549377              \* 11.0.0.1
 A32  == M(1, 1, 32, H1)        \* the three fields of the reference frame, rest wildcarded
-EX   == [ip |-> 1, dd |-> 1, nl |-> 32, nv |-> H1, ex |-> 1]   \* the exact match
-MatchU == {ANY, P1, P2, DA, DB, P1A, P2A, N8, N16, N16b, P1N, A32, EX}
+SRC  == 335609865              \* 20.1.0.9 : nw_src of the reference frame
+SRC2 == 335675401              \* 20.2.0.9
+SRC3 == 352321545              \* 21.0.0.9
+EX   == [ip |-> 1, dd |-> 1, sl |-> 32, sv |-> SRC, nl |-> 32, nv |-> H1, ex |-> 1]  \* the exact match
+\* nw_src prefixes, alone and together with nw_dst prefixes
+S8     == MS(0, 0, 8, 20, 0, 0)          \* nw_src 20.0.0.0/8
+S16    == MS(0, 0, 16, 5121, 0, 0)       \* nw_src 20.1.0.0/16
+S16b   == MS(0, 0, 16, 5122, 0, 0)       \* nw_src 20.2.0.0/16
+S8N8   == MS(0, 0, 8, 20, 8, 10)
+S16N8  == MS(0, 0, 16, 5121, 8, 10)      \* overlaps S8N16, neither contains the other
+S8N16  == MS(0, 0, 8, 20, 16, 2561)
+S16N16 == MS(0, 0, 16, 5121, 16, 2561)   \* inside both
+S16bN16 == MS(0, 0, 16, 5122, 16, 2561)  \* differs from S16N16 in the source only
+P1S16  == MS(1, 0, 16, 5121, 0, 0)
+S32N32 == MS(0, 0, 32, SRC, 32, H1)      \* two host addresses: no bit to ignore
+MatchS == {S8, S16, S16b, S8N8, S16N8, S8N16, S16N16, S16bN16, P1S16, S32N32}
+MatchU == {ANY, P1, P2, DA, DB, P1A, P2A, N8, N16, N16b, P1N, A32, EX} \cup MatchS
 
-Pkt(ip, dd, na, ref, len) == [ip |-> ip, dd |-> dd, na |-> na, ref |-> ref, len |-> len]
+PktS(ip, dd, ns, na, ref, len) == [ip |-> ip, dd |-> dd, ns |-> ns, na |-> na, ref |-> ref,
+                                   len |-> len]
+Pkt(ip, dd, na, ref, len) == PktS(ip, dd, SRC, na, ref, len)
 X1A  == Pkt(1, 1, H1, 1, 60)   \* the reference frame
 X1Ap == Pkt(1, 1, H1, 0, 62)   \* same three fields, another UDP port
 X1B  == Pkt(1, 2, H2, 0, 100)
 X2A  == Pkt(2, 1, H3, 0, 200)
 X2B  == Pkt(2, 2, H1, 0, 1000)
-PktU == {Pkt(ip, dd, na, ref, 64) : ip \in 1..2, dd \in 1..2, na \in {H1, H1 + 1, H2, H3},
-                                    ref \in {0, 1}}
+Y2A  == PktS(1, 1, SRC2, H1, 0, 66)    \* the reference frame from 20.2.0.9
+Y1B  == PktS(1, 2, SRC, H2, 0, 102)     \* 20.1.0.9 -> 10.2.0.1
+Y3C  == PktS(2, 1, SRC3, H3, 0, 202)    \* 21.0.0.9 -> 11.0.0.1
+PktU == {x \in {PktS(ip, dd, ns, na, ref, 64) : ip \in 1..2, dd \in 1..2, ns \in {SRC, SRC + 1, SRC2, SRC3},
+                                               na \in {H1, H1 + 1, H2, H3}, ref \in {0, 1}} :
+           x.ref = 1 => x.ns = SRC}
 
 \* ---- sanity of the match algebra against frame semantics (checked once)
 ASSUME \A a \in MatchU : IsMatch(a) /\ Covers(a, a) /\ Overlap(a, a)
@@ -45,6 +68,13 @@ ASSUME \A a, b \in MatchU :
 \* overlap without subsumption, subsumption, disjointness all occur
 ASSUME Overlap(P1, DA) /\ ~Covers(P1, DA) /\ ~Covers(DA, P1)
 ASSUME Covers(N8, N16) /\ ~Covers(N16, N8) /\ ~Overlap(N16, N16b) /\ ~Overlap(P1, P2)
+\* ... and between prefixes of the two address fields
+ASSUME /\ Overlap(S16N8, S8N16) /\ ~Covers(S16N8, S8N16) /\ ~Covers(S8N16, S16N8)
+       /\ Covers(S8N8, S16N8) /\ Covers(S8N8, S8N16) /\ Covers(S16N8, S16N16) /\ Covers(S8N16, S16N16)
+       /\ Overlap(S16, N16) /\ ~Covers(S16, N16) /\ ~Covers(N16, S16)
+       /\ ~Overlap(S16N16, S16bN16) /\ ~Overlap(S16, S16b) /\ Covers(S16, EX) /\ Covers(S16N16, S32N32)
+\* the reference frame (ref = 1) is the one the exact match names
+ASSUME \A x \in PktU : PktMatches(EX, x) => x.ns = SRC /\ x.na = H1 /\ x.ip = 1 /\ x.dd = 1
 
 TicksNone == {}
 QueriesNone == {}
@@ -53,7 +83,10 @@ TicksAll  == {1, 2}
 \* ---- FLOW_MOD templates
 F(cmd, m, prio, acts, idle, hard, rem, chk, outp, cookie) ==
   [cmd |-> cmd, m |-> m, prio |-> prio, acts |-> acts, idle |-> idle, hard |-> hard,
-   rem |-> rem, chk |-> chk, em |-> 0, outp |-> outp, cookie |-> cookie]
+   rem |-> rem, chk |-> chk, em |-> 0, outp |-> outp, cookie |-> cookie, sp |-> 0]
+\* the same message spelled with non-zero don't-care bits (see FlowTable.tla, "Spelling")
+Sp(f, s) == [f EXCEPT !.sp = s]
+Q(m, outp, s) == [m |-> m, outp |-> outp, sp |-> s]
 AddF(m, prio, acts, idle, hard, rem, chk) == F("ADD", m, prio, acts, idle, hard, rem, chk, 0, 1)
 ModF(m, prio, acts)  == F("MOD", m, prio, acts, 0, 0, 1, 0, 0, 2)
 ModsF(m, prio, acts) == F("MODS", m, prio, acts, 0, 0, 1, 0, 0, 3)
@@ -73,7 +106,7 @@ ModsCmd ==
   \cup {DelsF(m, p, 0) : m \in {P1, P1A}, p \in {5, 7}} \cup {DelsF(P1A, 5, 4)}
   \cup {Emerg(AddF(P1, 5, "o3", 0, 0, 0, 0)), Emerg(AddF(P1, 5, "o3", 2, 0, 0, 0))}
 PktsCmd    == {X1A, X2B}
-QueriesCmd == {[m |-> ANY, outp |-> 0], [m |-> P1, outp |-> 3]}
+QueriesCmd == {Q(ANY, 0, 0), Q(P1, 3, 0)}
 
 \* -- alphabet "time": timeouts, traffic, sweeps
 ModsTime ==
@@ -81,7 +114,7 @@ ModsTime ==
    AddF(P1A, 7, "o4", 3, 2, 0, 0), AddF(DA, 5, "o3", 1, 0, 1, 0),
    ModF(P1, 5, "o4"), DelF(P1A, 0)}
 PktsTime    == {X1A, X1B}
-QueriesTime == {[m |-> ANY, outp |-> 0]}
+QueriesTime == {Q(ANY, 0, 0)}
 
 \* -- alphabet "nw": nw_dst prefixes and the exact match
 ModsNw ==
@@ -92,7 +125,7 @@ ModsNw ==
   \cup {ModsF(EX, 1, "o3"), ModsF(N16, 5, "none")}
   \cup {DelF(m, 0) : m \in {N8, N16, N16b, A32, P1}} \cup {DelsF(EX, 1, 0), DelsF(A32, 7, 0), DelF(N8, 4)}
 PktsNw    == {X1A, X1Ap, X1B, X2B}
-QueriesNw == {[m |-> N8, outp |-> 0], [m |-> ANY, outp |-> 4]}
+QueriesNw == {Q(N8, 0, 0), Q(ANY, 4, 0)}
 
 \* -- reduced alphabets: their whole transition graphs are replayed in the quick tier
 ModsCmdQ ==
@@ -101,7 +134,7 @@ ModsCmdQ ==
    ModF(P1, 5, "o4"), ModF(ANY, 5, "none"), ModsF(P1A, 5, "o34"), ModsF(P1, 7, "o3"),
    DelF(P1, 0), DelF(ANY, 4), DelsF(P1A, 5, 0), DelsF(P1, 7, 0), DelsF(DA, 5, 3),
    Emerg(AddF(P1, 5, "o3", 0, 0, 0, 0))}
-QueriesCmdQ == {[m |-> P1, outp |-> 3]}
+QueriesCmdQ == {Q(P1, 3, 0)}
 \* one entry, every shape of timeout pair; two entries, mixed reasons in one sweep
 ModsTime1 ==
   {AddF(P1, 5, "o3", i, h, 1, 0) : <<i, h>> \in {<<1, 0>>, <<0, 2>>, <<2, 3>>, <<3, 2>>}}
@@ -115,7 +148,34 @@ ModsNwQ ==
    AddF(EX, 1, "o4", 0, 0, 1, 0), AddF(A32, 7, "o34", 0, 0, 1, 0), AddF(P1N, 5, "o4", 0, 0, 0, 1),
    ModF(N8, 5, "o34"), ModsF(EX, 1, "o3"), DelF(N16, 0), DelF(A32, 0), DelsF(A32, 7, 0), DelF(N8, 4)}
 PktsNwQ == {X1A, X1Ap, X1B}
-QueriesNwQ == {[m |-> N8, outp |-> 0]}
+QueriesNwQ == {Q(N8, 0, 0)}
+
+\* -- alphabet "sd": nw_src x nw_dst prefixes, every message in several spellings
+ModsSd ==
+  {Sp(AddF(m, 5, "o3", 0, 0, 1, 0), s) : m \in {S8N8, S16N8, S8N16, S16N16}, s \in {0, 3}}
+  \cup {Sp(AddF(S16N16, 5, "o4", 0, 0, 1, 0), s) : s \in {1, 2, 7}}
+  \cup {Sp(AddF(S16bN16, 5, "o3", 0, 0, 1, 1), 3), Sp(AddF(S8N16, 5, "o4", 0, 0, 0, 1), 2),
+        Sp(AddF(N16, 5, "o4", 0, 0, 1, 1), 5), Sp(AddF(S16, 7, "o34", 0, 0, 1, 0), 6),
+        Sp(AddF(S32N32, 5, "o4", 0, 0, 1, 1), 7), AddF(EX, 1, "o4", 0, 0, 1, 0)}
+  \cup {Sp(ModF(S8N8, 5, "o34"), 3), ModF(S16N8, 5, "o4"), Sp(ModF(S16, 5, "none"), 6)}
+  \cup {Sp(ModsF(S16N16, 5, "o34"), s) : s \in {0, 3}} \cup {Sp(ModsF(S8N16, 5, "o3"), 1)}
+  \cup {Sp(DelF(S8N8, 0), 3), DelF(S16N8, 0), Sp(DelF(S8N16, 0), 7), Sp(DelF(S16, 0), 2),
+        Sp(DelF(N16, 0), 1), Sp(DelF(S8N8, 4), 3), Sp(DelF(ANY, 3), 4)}
+  \cup {Sp(DelsF(S16N16, 5, 0), s) : s \in {0, 3, 4}}
+  \cup {Sp(DelsF(S8N16, 5, 3), 3), Sp(DelsF(S16, 7, 0), 2)}
+PktsSd    == {X1A, Y2A, Y1B, Y3C}
+QueriesSd == {Q(S8N8, 0, 3), Q(S16N8, 3, 2), Q(ANY, 0, 4), Q(S16N16, 0, 0)}
+\* (reduced: its whole transition graph is replayed in the quick tier)
+ModsSdQ ==
+  {Sp(AddF(S16N16, 5, "o3", 0, 0, 1, 0), 3), AddF(S16N16, 5, "o4", 0, 0, 0, 0),
+   Sp(AddF(S8N8, 5, "o34", 0, 0, 1, 0), 7), Sp(AddF(S16N8, 5, "o4", 0, 0, 1, 1), 2),
+   Sp(AddF(S8N16, 5, "o3", 0, 0, 1, 1), 3), Sp(AddF(S16bN16, 5, "o3", 0, 0, 1, 1), 1),
+   Sp(AddF(S16, 7, "o4", 0, 0, 1, 0), 6),
+   Sp(ModF(S16N8, 5, "o34"), 3), Sp(ModsF(S16N16, 5, "none"), 3), ModsF(S8N16, 5, "o4"),
+   Sp(DelF(S8N8, 0), 3), Sp(DelF(S8N16, 4), 5), Sp(DelF(S16, 0), 2),
+   Sp(DelsF(S16N16, 5, 0), 3), DelsF(S8N8, 5, 0), Sp(DelsF(S16N8, 5, 3), 7)}
+PktsSdQ    == {X1A, Y2A, Y1B}
+QueriesSdQ == {Q(S8N8, 0, 3), Q(S16N16, 4, 6)}
 
 \* -- small alphabet for all paths of depth 3
 ModsPaths ==
@@ -136,8 +196,8 @@ ModsPathsQ ==
    DelF(P1, 0), DelF(ANY, 4), DelsF(P1A, 7, 0), DelsF(P1A, 5, 3),
    Emerg(AddF(P1, 5, "o3", 0, 0, 0, 0))}
 PktsPathsQ    == {X1A, X2A}
-QueriesPathsQ == {[m |-> P1, outp |-> 0]}
-QueriesPaths == {[m |-> P1, outp |-> 0], [m |-> ANY, outp |-> 3]}
+QueriesPathsQ == {Q(P1, 0, 0)}
+QueriesPaths == {Q(P1, 0, 0), Q(ANY, 3, 0)}
 
 \* -- eight operations, all paths of depth 5: the shortest histories in which
 \* traffic, two clock advances and a sweep interleave
@@ -147,7 +207,7 @@ PktsPaths5 == {X1A}
 
 \* -- rich alphabet for long random behaviours
 ModsSim ==
-  ModsCmd \cup ModsTime \cup ModsNw \cup ModsPaths
+  ModsCmd \cup ModsTime \cup ModsNw \cup ModsPaths \cup ModsSd
   \cup {AddF(m, p, "o3", 2, 3, 1, 0) : m \in {P2, DB, P2A}, p \in {5, 7}}
   \cup {DelF(P2, 0), DelF(DB, 3), ModF(P2, 5, "none")}
 \* (simulation picks successors uniformly: a leaner FLOW_MOD alphabet keeps
@@ -159,8 +219,12 @@ ModsSimS ==
    AddF(EX, 1, "o4", 2, 0, 1, 0), AddF(DB, 5, "none", 0, 2, 1, 1),
    ModF(P1, 5, "o4"), ModF(ANY, 5, "o3"), ModF(N8, 5, "o34"), ModsF(P1A, 7, "o3"), ModsF(DA, 7, "o4"),
    DelF(P1, 0), DelF(DA, 3), DelF(ANY, 4), DelF(N8, 0), DelsF(P1A, 7, 0), DelsF(EX, 1, 0), DelsF(P1, 5, 4),
-   Emerg(AddF(P1, 5, "o3", 2, 0, 0, 0))}
+   Emerg(AddF(P1, 5, "o3", 2, 0, 0, 0)),
+   Sp(AddF(S16N16, 7, "o3", 2, 0, 1, 0), 3), Sp(AddF(S8N8, 5, "o4", 3, 4, 1, 1), 7),
+   Sp(AddF(S16N16, 7, "o4", 0, 3, 1, 0), 0), Sp(AddF(P1, 5, "o3", 2, 3, 1, 0), 4),
+   Sp(ModF(S8N8, 5, "o34"), 3), Sp(DelsF(S16N16, 7, 0), 3), Sp(DelF(S8N16, 3), 2),
+   Sp(DelF(N8, 0), 5), Sp(ModsF(P1A, 7, "o4"), 4)}
 TicksSim   == {1, 2, 3}
-PktsSim    == {X1A, X1Ap, X1B, X2A, X2B}
-QueriesSim == QueriesCmd \cup QueriesNw
+PktsSim    == {X1A, X1Ap, X1B, X2A, X2B, Y2A, Y1B}
+QueriesSim == QueriesCmd \cup QueriesNw \cup QueriesSd
 ====
